@@ -10,7 +10,7 @@ done
 python3-vt - <<'PY'
 import json,jsonschema,glob
 s=json.load(open('/root/.vp/EVIDENCE.schema.json'))
-for f in sorted(glob.glob('/verif/evidence/*.json')):
+for f in sorted([f for f in glob.glob('/verif/evidence/*.json') if not f.endswith('.partial.json')]):
     e=json.load(open(f))
     try:
         jsonschema.validate(e,s)
